@@ -1,0 +1,23 @@
+//go:build verif
+
+package minersc
+
+import (
+	cstate "0chain.net/chaincore/chain/state"
+)
+
+// VerifReduce exposes SimpleNodes.reduce (view-change node selection).
+func VerifReduce(sns SimpleNodes, limit int, xPercent float64, pmbrss int64, pmbnp Pooler) int {
+	return sns.reduce(limit, xPercent, pmbrss, pmbnp)
+}
+
+// VerifReduceNodes exposes DKGMinerNodes.reduceNodes.
+func VerifReduceNodes(dkgmn *DKGMinerNodes, final bool, gn *GlobalNode, balances cstate.StateContextI) error {
+	return dkgmn.reduceNodes(final, gn, balances)
+}
+
+// VerifReduceShardersList exposes MinerSmartContract.reduceShardersList.
+func VerifReduceShardersList(msc *MinerSmartContract, keep, all *MinerNodes, gn *GlobalNode,
+	balances cstate.StateContextI) ([]*MinerNode, error) {
+	return msc.reduceShardersList(keep, all, gn, balances)
+}
